@@ -205,6 +205,7 @@ def run(res, replay=None):
     nschemas = 5 if res.tier == "quick" else 30
     nimgs = 6 if res.tier == "quick" else 20
     cases = prepare_many(res.seed, nschemas, cfgs)
+    cases.append(prepare_fixed(edge_schema(), cfgs))
     for ci, mc in enumerate(cases):
         if mc.error:
             kind, msg = mc.error
